@@ -361,6 +361,16 @@ func Emit(name string, v any) {
 		s = fmt.Sprint(x)
 	case uint16:
 		s = fmt.Sprint(x)
+	case int64:
+		s = fmt.Sprint(x)
+	case int32:
+		s = fmt.Sprint(x)
+	case int16:
+		s = fmt.Sprint(x)
+	case int8:
+		s = fmt.Sprint(x)
+	case uint8:
+		s = fmt.Sprint(x)
 	default:
 		s = fmt.Sprintf("ptr")
 	}
